@@ -11,6 +11,10 @@ Networks are built by hand (`register_evse` in the listed order) AND through the
 the schedulers are the harness' generous one and the package's real algorithms (uncontrolled, round robin,
 sorted FCFS / EDF / LLF under a tight aggregate cap).
 
+Every session case is also answered by the FULL simulator model on the stochastic network with the scheduler that
+really ran (harness' or the package's own algorithm), fully_charged computed by the model; ~1 case in 8 crashes the
+first run() (scheduler raises / invalid rate) and calls run() again on the same simulator object.
+
 "Reproducible under a fixed random seed" is checked (a) inside the harness process (same seed, no patching,
 run again) and (b) ACROSS INTERPRETER PROCESSES: a case that carries `"hashseeds": [h1, h2, ...]` is also run
 in persistent worker processes started with `PYTHONHASHSEED=h_i` (acnportal imported from ACN_REPO there too);
@@ -867,7 +871,7 @@ def model_request(case, obs):
     if case.get("sched", "gen") in ("gen", "alt", "zero"):
         # composed model with fully_charged COMPUTED from an energy ledger (what the harness' scheduler and
         # the ideal battery do: 32 A * voltage for one period to every plugged-in EV that is not yet full);
-        # with the package's real algorithms fully_charged is an input of the model (TRUSTED)
+        # the package's real algorithms run in the full-simulator model below ("simreal")
         req["ledger"] = {"req": [{"id": s["id"], "kwh": f2b(I.num(s["kwh"]))} for s in case["sessions"]],
                          "per_period": f2b((32.0 * _volt(case)) / 1000 * (PERIOD / 60)), "eps": f2b(1e-3),
                          "mode": case.get("sched", "gen")}
@@ -1224,6 +1228,19 @@ def oracle(case, obs):
                 bad("waiting_while_satisfied_ev_holds_station",
                     f"period {c['t']}: {c['waiting']} waiting, {c['full']} satisfied and still holding stations when the next period began "
                     f"(early_departure=True)")
+    # crash: what the raise left behind is the network as the failing period's last plugin / unplug call left it
+    # (no hook, no counter moved), every session still in exactly one place, nobody waiting next to a free station
+    ab = obs.get("abort")
+    if crash and ab is not None:
+        asnap = ab["snap"]
+        last = obs["trace"][ab["trace_len"] - 1]["snap"] if ab["trace_len"] > 0 else None
+        if last is not None and any(asnap[k] != last[k] for k in ("occ", "waiting", "station_of", "swaps", "never_charged", "early_unplug")):
+            bad("abort_state_differs_from_last_call", f"iteration {ab['iter']}: at the abort {asnap}, after the last network call {last}")
+        a_on, a_w, a_dup = _places(asnap)
+        if a_dup:
+            bad("session_in_two_places", f"at the abort (iteration {ab['iter']}): {a_dup} occ={asnap['occ']} waiting={a_w}")
+        if a_w and any(x is None for _, x in asnap["occ"]):
+            bad("waiting_while_free", f"at the abort (iteration {ab['iter']}): waiting={a_w} occ={asnap['occ']}")
     fin = obs["final"]
     if obs["err"] is None:
         if any(x is not None for _, x in fin["occ"]) or fin["waiting"]:
